@@ -316,3 +316,15 @@ JOBS['C08'] = [
     {'name': 'registers_autoindent', 'harness': 'c08_rel.c', 'units': 'ALL', 'defs': {'MODE': 2}, 'expect_reach': ['end'],
      'timeout': {'quick': 280, 'thorough': 1700}, 'max_steps': 80000000, 'validate': {'quick': 4, 'thorough': 8}},
 ]
+
+# ---------------------------------------------------------------- C07
+META['C07'] = {
+    'bounds': {'quick': 'three fixed 3-line buffers (word characters, punctuation, blanks, TAB, 2-byte and double-width characters, empty lines) x every start position x counts {none,2} x 39 motions and short motion sequences (h l 0 ^ $ | j k G + - _ fa Fa ta Ta f. t. w b e W B E, f/t/F/T followed by ; or ,, f with a 2-byte target, % { } H M L, N| followed by j/k for the remembered column)',
+               'thorough': 'buffers of two lines of <=2 symbolic characters (word, punctuation, blank, TAB, 2-byte, double-width) plus a fixed line, counts {none,2,3}'},
+    'outside': 'section motions [[ ]]; right-to-left lines (h l there are covered by C17); word motions whose target lies behind a blank-only line, and e/E across an empty line (the reference leaves them open); counts that overrun the buffer are taken to stop at the first/last line; % { } H M L are checked for text-unchanged / cursor-valid only',
+    'assumptions': ['the cursor is observed through a marker typed at it and read from the written file'],
+}
+JOBS['C07'] = [
+    {'name': 'motions', 'harness': 'c07_mot.c', 'units': 'ALL', 'defs': {'quick': {'NMOT': 39}, 'thorough': {'LL': 2, 'NMOT': 39, 'SYMTEXT': 1, 'NCNT': 3}}, 'heavy': True,
+     'expect_reach': ['end', 'asserted'], 'timeout': {'quick': 290, 'thorough': 3000}, 'max_steps': 60000000, 'validate': {'quick': 8, 'thorough': 16}},
+]
